@@ -225,8 +225,9 @@ theorem c08_gcm_roundtrip_aes (dst dst' pt key nonce ad : Bytes)
 secret, iv / nonce, additional data and dst of all calls of a case in the SAME backing arrays
 and overwrites them in place between the calls): in the model a call has no memory — the
 answer to each line is a function of that line alone, whatever was called before with whatever
-was in those buffers, and equals the answer in the ordinary mode.  (True by construction — the
-model's entry points are pure functions — and recorded here because it is exactly what the
+was in those buffers — valid calls and REJECTED ones alike (a failed call leaves nothing
+behind: there is no state it could half-update) — and equals the answer in the ordinary mode.
+(True by construction — the model's entry points are pure functions — and recorded here because it is exactly what the
 call-by-call comparison then demands of the real code: no cipher, schedule, iv or credential
 retained BY REFERENCE from an earlier call.) -/
 theorem c08_history_is_memoryless (pre ops : List String) :
@@ -238,6 +239,39 @@ theorem c08_history_is_memoryless (pre ops : List String) :
   rw [Nat.add_comm, List.drop_succ_cons]
   have : pre.length = (pre.map fun l => step (Golib.Proto.toks l)).length := by simp
   rw [this, List.drop_left]
+
+/-- What the ARENA stream of the tie instantiates (header `arena`: dst, plaintext/ciphertext,
+key, iv/nonce and additional data of a call are windows of one arena — both orders, adjacent or
+apart, with or without spare capacity — and everything outside the dst window must be unchanged
+after the call).  (1) The model's answers do not depend on the mode: an entry point is a
+function of the VALUES of its arguments; where they live is not an input, and the only output is
+the new content of dst.  (2) In the documented layouts the result does not depend on what `dst`
+held before the call either — for `AESCBCEncrypt` this is the clause a library violates when it
+skips `copy(dst, plainText)` for a `dst` that merely shares an arena with the plaintext: the
+stale content of `dst` would be encrypted. -/
+theorem c08_arena_value_semantics (C : Cipher) (A : AEAD) (ops : List String)
+    (dst dst' pt ct key iv nonce ad : Bytes)
+    (hk : keyOK key = true) (hiv : iv.length = 16) (hn : nonce ≠ [])
+    (hseal : ∀ n p a, (A.sealF key n p a).length = p.length + 16) :
+    runCase ["arena"] ops = runCase ["x"] ops ∧
+    (dst.length = cbcEncryptLen pt.length → dst'.length = cbcEncryptLen pt.length →
+      aesCBCEncrypt C dst pt key iv = aesCBCEncrypt C dst' pt key iv) ∧
+    (16 ≤ ct.length → ct.length % 16 = 0 → dst.length = ct.length → dst'.length = ct.length →
+      aesCBCDecrypt C (.fresh dst) ct key iv = aesCBCDecrypt C (.fresh dst') ct key iv ∧
+      aesCBCDecrypt C (.fresh dst) ct key iv = aesCBCDecrypt C .inplace ct key iv) ∧
+    (dst.length = gcmEncryptLen pt.length → dst'.length = gcmEncryptLen pt.length →
+      aesGCMEncrypt A dst pt key nonce ad = aesGCMEncrypt A dst' pt key nonce ad) := by
+  refine ⟨rfl, ?_, ?_, ?_⟩
+  · intro h1 h2
+    rw [aesCBCEncrypt_spec C dst pt key iv hk hiv h1, aesCBCEncrypt_spec C dst' pt key iv hk hiv h2]
+  · intro h16 hm h1 h2
+    rw [aesCBCDecrypt_eq C (.fresh dst) ct key iv hk hiv h16 hm (by intro d hd; injection hd with hd; rw [← hd, h1]),
+      aesCBCDecrypt_eq C (.fresh dst') ct key iv hk hiv h16 hm (by intro d hd; injection hd with hd; rw [← hd, h2]),
+      aesCBCDecrypt_eq C .inplace ct key iv hk hiv h16 hm (by intro d hd; cases hd)]
+    exact ⟨rfl, rfl⟩
+  · intro h1 h2
+    rw [(c08_gcm_lens A dst pt key nonce ad hseal hk hn h1).2.2,
+      (c08_gcm_lens A dst' pt key nonce ad hseal hk hn h2).2.2]
 
 /-- The facts the model hard-codes, against `Golib/Gen/FactsC08.lean`, which the go/ast
 extractor regenerates from `cryptz/aes.go` on every run: the constants, the size of the
